@@ -36,6 +36,7 @@ REQUIRED = {
         'series-nonmonotone': 500,
         'series-gentle-around-a-distant-datum': 500,
         'second-passes-compared': 200,
+        'integer-typed-series': 200,
         'pairs-falling': 1000,
         'head-mappings-checked': 100,
         'empty-series': 1,
@@ -66,8 +67,16 @@ def gen_series(rng):
             incs.append(rng.choice([rng.uniform(0.01, 1000), 1800.0, 1200.0, 1 / 3]))
     x = np.cumsum([x0] + incs)
     step = rng.choice(STEPS + [rng.uniform(0.05, 7)])
-    shape = rng.choice(['random', 'rising', 'falling', 'random', 'zigzag', 'gentle', 'gentle'])
+    shape = rng.choice(['random', 'rising', 'falling', 'random', 'zigzag', 'gentle', 'gentle', 'whole'])
     flags = set()
+    if shape == 'whole':
+        # whole-number abscissae (epochs) and ordinates (a logger with 1 mm resolution)
+        x = np.cumsum([float(int(x0))] + [float(rng.choice([600, 1200, 1800, 3600])) for _ in range(m - 1)])
+        y = [float(rng.randint(-400, 100))]
+        for _ in range(m - 1):
+            y.append(y[-1] + float(rng.choice([-3, -2, -1, -1, 0, 1, 4])))
+        flags.add('on-level')
+        return x, np.array(y), rng.choice([1.0, 2.0, 0.5, 5.0, 2.5]), flags
     if shape == 'gentle':
         # ordinates that are large compared with the per-sample change: a level
         # referred to a distant datum with a slow recession / creep
@@ -141,6 +150,10 @@ def check_regrid_case(ctx, x, y, step, flags=(), source='generated'):
     rec.case()
     case = {'kind': 'regrid', 'x': [float(v) for v in x], 'y': [float(v) for v in y], 'step': float(step)}
     xa, ya = np.array(x, dtype=float), np.array(y, dtype=float)
+    if len(xa) and np.all(ya == np.round(ya)) and np.all(xa == np.round(xa)) and np.all(np.abs(xa) < 2 ** 52):
+        # whole-number series are also handed over as integer arrays (epochs are integers)
+        xa, ya = xa.astype(np.int64), ya.astype(np.int64)
+        rec.hit('integer-typed-series')
     try:
         out = list(rg.regrid(xa, ya, step))
     except Exception as exc:  # pylint: disable=broad-except
@@ -151,7 +164,7 @@ def check_regrid_case(ctx, x, y, step, flags=(), source='generated'):
         rec.violation('regrid-raises:' + desc['type'], {'exception': desc}, case, 'regrid')
         return
     rec.hit('regrid-calls')
-    if not (np.array_equal(xa, np.array(x, dtype=float)) and np.array_equal(ya, np.array(y, dtype=float))):
+    if not (np.array_equal(xa.astype(float), np.array(x, dtype=float)) and np.array_equal(ya.astype(float), np.array(y, dtype=float))):
         rec.violation('the-sampled-series-handed-in-is-modified', {'y_before': case['y'][:6], 'y_after': ya.tolist()[:6], 'step': float(step)}, case, 'regrid')
         return out
     # a second pass over the same arrays (another command, another grid) must see the same record
